@@ -1485,7 +1485,7 @@ TIERS = {"quick": {"runs": 320, "wall": 420.0, "groups": 11, "hot_cap": 600, "ho
                    "cold_groups": (0, 1, 2, 4, 7, 8), "cold_cap": 150,
                    "sweeps": [(0, "call", 96), (1, "call", 96), (2, "call", 12), (3, "call", 128), (4, "call", 96),
                               (5, "call", 4096), (6, "call", 96), (7, "call", 24), (8, "call", 32), (8, "grid2", 16),
-                              (9, "call", 64), (10, "chain", 256), (0, "line", 768)]},
+                              (9, "call", 64), (10, "chain", 512), (0, "line", 768)]},
          "thorough": {"runs": 60000, "wall": 3000.0, "groups": 14, "hot_cap": 4000, "hot3_cap": 2500,
                       "cold_groups": tuple(range(14)), "cold_cap": 4000,
                       "sweeps": [(i, "callret", 1) for i in range(14) if i != 10] + [(i, "line", 4) for i in range(14) if i != 10]
